@@ -6,6 +6,7 @@
    expression over &&, ||, the six comparisons and the three metric functions of predicates.go. *)
 From Coq Require Import QArith.
 From Oxy Require Import Base.Prelude Model.Breaker Proofs.BreakerProofs.
+From Oxy Require Proofs.CounterProofs Proofs.MetricsLink.
 From Oxy Require Gen.Consts.
 Open Scope Z_scope.
 
@@ -131,6 +132,17 @@ Theorem C18_constants_match_source :
   Consts.counterBuckets = Breaker.buckets /\ Consts.counterResolution = Breaker.second.
 Proof. split; reflexivity. Qed.
 Print Assumptions C18_constants_match_source.
+
+(* The metrics model of the breaker is the rolling counter of C17: a counter of 10 buckets x 1 s that received one unit
+   per record satisfying p, at the record's time, reads (C17_count_exact) the sum over its window — which is exactly
+   Breaker.count p. So the ratios of C18_trip_iff are ratios of real rolling-counter readings. *)
+Theorem C18_metrics_are_rolling_counters : forall p now l,
+  (forall e, In e l -> fst e <= now) ->
+  Breaker.count p now l =
+  CounterProofs.sumif (CounterProofs.inwin Breaker.second Breaker.buckets (CounterProofs.sl Breaker.second now))
+                      (MetricsLink.incs_of p l).
+Proof. exact MetricsLink.count_is_counter_window. Qed.
+Print Assumptions C18_metrics_are_rolling_counters.
 
 (* non-vacuity: ResponseCodeRatio(500,600,0,600) >= 0.5 && LatencyAtQuantileMS(50.0) > 100, check period 1 s:
    500 at t0 (checked: 1/1 but latency 40: no trip), 200 and 503 within the period (not checked), 503 after it
